@@ -94,7 +94,8 @@ class SpliceInsert(ObjectWithFields):
         return kwargs
 
     def encode(self, dest):
-        self.program_splice_flag = self.splice_time is not None
+        if 'program_splice_flag' not in self._fields:
+            self.program_splice_flag = self.splice_time is not None
         w = BitsFieldWriter(self, dest)
         w.write(32, 'splice_event_id')
         w.write(1, 'splice_event_cancel_indicator')
